@@ -204,4 +204,51 @@ AccIndicator(x, r, a) ==
          down == DownChain(x, r, u, x.n)
      IN (At(a.src, u) = 1) =>
         \A i \in NodesOf(x) : At(a.racc[1], i) = (IF i \in down THEN At(a.rarea, u) ELSE a.rzero)
+-----------------------------------------------------------------------------
+(* C10 - kernels.  k: [dir, thr, calls, begin, end, out, threw]              *)
+\* expected output of the test kernel on an ordered traversal: length of the longest receiver
+\* path to a terminal node (computed along the bottom-up order, receivers first)
+RECURSIVE LongestFold(_, _, _, _)
+LongestFold(x, r, k, f) ==
+  IF k > Len(r.dfs) THEN f
+  ELSE LET i == r.dfs[k]
+           up == RecSetOf(r, i) \ {i}
+           v == IF up = {} THEN 0 ELSE 1 + SetMax({f[j] : j \in up})
+       IN LongestFold(x, r, k + 1, (i :> v) @@ f)
+Longest(x, r) == LongestFold(x, r, 1, [z \in {} |-> 0])
+KernelExactlyOnce(x, k) == \A i \in NodesOf(x) : At(k.calls, i) = 1
+KernelReceiversFirst(x, r, k) == \A i \in NodesOf(x) : \A j \in RecSetOf(r, i) \ {i} : At(k.end, j) < At(k.begin, i)
+KernelOutput(x, r, k) == IF k.dir = "any" THEN \A i \in NodesOf(x) : At(k.out, i) = 3 * i + 1
+                         ELSE LET lp == Longest(x, r) IN \A i \in NodesOf(x) : At(k.out, i) = lp[i]
+
+-----------------------------------------------------------------------------
+(* C12 - stream-power erosion is non-negative and never reverses a slope.    *)
+(* e: [rh, re, rhn, rzero, ez, ecls]; rhn = fl(h - e) as the eroder computes *)
+MinRecNext(r, e, i) == SetMin({At(e.rhn, j) : j \in RecSetOf(r, i)})
+SplTerminalsZero(x, r, e) == \A i \in NodesOf(x) : (Msk(x, i) \/ SelfOnly(r, i)) => At(e.ez, i) = 1
+SplLakesZero(x, r, e) == \A i \in NodesOf(x) : (~SelfOnly(r, i) /\ At(e.rh, i) <= MinRecNext(r, e, i)) => At(e.ez, i) = 1
+SplFinite(x, e) == \A i \in NodesOf(x) : At(e.ecls, i) = 0
+SplNonNegative(x, e) == \A i \in NodesOf(x) : At(e.rhn, i) <= At(e.rh, i) + 2
+SplNoReversal(x, r, e) == \A i \in NodesOf(x) : ~SelfOnly(r, i) => At(e.rhn, i) >= MinRecNext(r, e, i) - 2
+
+-----------------------------------------------------------------------------
+(* C13 - the step solves the implicit (backward Euler) equation.  Exact      *)
+(* cases: integer elevations hi, claimed exact solution e.expect (integers), *)
+(* integer factors e.f[i] = K dt (A w)^m / d^n, slope exponent code ncode    *)
+(* (1: n = 1/2, 2: n = 1, 4: n = 2, 6: n = 3).  TLC first checks that the    *)
+(* claimed solution satisfies the equation exactly, then that the erosion    *)
+(* returned by the real eroder encloses it.                                  *)
+ISqrt(v) == CHOOSE s \in 0..64 : s * s = v
+PowN(d, ncode) == CASE ncode = 1 -> ISqrt(d) [] ncode = 2 -> d [] ncode = 4 -> d * d [] ncode = 6 -> d * d * d
+SplExactSolution(x, r, e) ==
+  \A i \in NodesOf(x) :
+     IF SelfOnly(r, i) THEN At(e.expect, i) = At(e.hi, i)
+     ELSE At(e.hi, i) = At(e.expect, i)
+            + SumSeq([k \in DOMAIN RecSeq(r, i) |->
+                 LET j == RecSeq(r, i)[k] IN At(e.f, i)[k] * PowN(At(e.expect, i) - At(e.expect, j), e.ncode)])
+\* depth of a node above its terminal (error accumulates along the path)
+SplEncloses(x, r, e) ==
+  LET lp == Longest(x, r) IN
+  \A i \in NodesOf(x) :
+     Abs(At(e.eq, i) - (At(e.hi, i) - At(e.expect, i)) * 1048576) <= (lp[i] + 1) * (e.tolq + 4)
 =============================================================================
